@@ -72,17 +72,7 @@ def windows(draw, n):
         return w if ity == 'py' else w + [ity]
     a = draw(st.integers(0, n - 1))
     b = draw(st.integers(a + 1, n))
-    form = draw(st.integers(0, 7))
-    lo = a
-    if a == 0 and form & 1:
-        lo = None
-    elif form & 4:
-        lo = a - n
-    hi = b
-    if b == n and form & 2:
-        hi = None
-    elif b < n and form & 4:
-        hi = b - n
+    lo, hi = I.spell_slice(draw, a, b, n)
     step = draw(st.sampled_from([None, None, 1]))
     return ['slice', [lo, hi, step]]
 
@@ -121,10 +111,7 @@ def cases(draw, tier='quick'):
         else:
             a = draw(st.integers(0, nt - 2))
             b = draw(st.integers(a + 2, nt))
-        form = draw(st.integers(0, 3))
-        lo = None if (a == 0 and form & 1) else (a - nt if form == 2 else a)
-        hi = None if (b == nt and form & 2) else (b - nt if (
-            b < nt and form == 1) else b)
+        lo, hi = I.spell_slice(draw, a, b, nt)
         win = [w if w[0] != 'TSTEP' else ['TSTEP', 'slice', [lo, hi, None]]
                for w in win]
     return dict(file=fs, win=win, prep=draw(I.preps(fs)))
@@ -178,6 +165,16 @@ def enumerate_cases(tier):
                 yield dict(file=fs, win=[[d] + w], prep='synced')
             for p in states:
                 yield dict(file=fs, win=[[d] + w], prep=p)
+    # slice bounds beyond the axis (clamped by slice semantics)
+    for d, n in dl:
+        oob = [[-100, 100], [None, n + 3], [-n - 3, None]]
+        for b in range(1, n + 1):
+            oob += [[-n - 1, b], [-n - 7, b]]
+        for a in range(n):
+            oob += [[a, n + 1], [a, n + 9], [a - n, n + 2]]
+        for lo, hi in oob:
+            yield dict(file=fs, win=[[d, 'slice', [lo, hi, None]]],
+                       prep='synced')
     # every ROW x COL pair of integers given as numpy integer scalars
     for t1, t2 in (('i8', 'i8'), ('i4', 'intp'), ('intp', 'i4')):
         for i in range(-fs['ny'], fs['ny']):
